@@ -2,6 +2,7 @@ package node
 
 import (
 	"bytes"
+	"net/url"
 	"strings"
 
 	"github.com/freeconf/yang/meta"
@@ -55,7 +56,9 @@ func (seg *Path) toBuffer(b *bytes.Buffer) {
 				b.WriteRune(',')
 			}
 			if k != nil {
-				b.WriteString(k.String())
+				// keys are percent-encoded so that the rendered path parses back
+				// to the same location (parseUrlPath unescapes each key)
+				b.WriteString(url.QueryEscape(k.String()))
 			} else {
 				b.WriteString("<nil>")
 			}
